@@ -92,6 +92,16 @@ fn main() {
             let hi: u64 = arg(5).parse().expect("hi");
             common::worker_main(e, seed, lo, hi, Tier::parse(arg(6)));
         }
+        "seq" => {
+            // execute the given run indices in this order in ONE process (debugging state leaks)
+            let e = engine(arg(2));
+            let c = ctx(Tier::parse(&std::env::var("VERIF_TIER").unwrap_or_default()));
+            for a in &a[3..] {
+                let i: u64 = a.parse().expect("index");
+                let r = e.execute(&e.generate(c.seed, i, c.tier));
+                eprintln!("seq {i}: {:?}", r.verdict);
+            }
+        }
         "gen" => {
             // print the materialised case of run <index> (for debugging)
             let e = engine(arg(2));
